@@ -788,7 +788,8 @@ def deviations(p):
         if p['out_ct'] in ('ulonglong',):
             d.append(('(hgap : FV.notInGap ((18446744073709551615 : Int) : Rat) ((18446744073709551616 : Int) : Rat) v)',
                       '(FV.fin ((18446744073709551616 : Int) : Rat))', 'F17'))
-    if p['kind'] == 'put' and p['in_ct'] == 'float' and p['out_ct'] == 'double':
+    # F18: exists only while the primitive still compares the float with X_DOUBLE_MAX (decided from the translated term)
+    if p['kind'] == 'put' and p['in_ct'] == 'float' and p['out_ct'] == 'double' and 'FV.gt v' in p.get('term', ''):
         d.append(('(hpinf : v ≠ FV.pinf)', 'FV.pinf', 'F18'))
         d.append(('(hninf : v ≠ FV.ninf)', 'FV.ninf', 'F18'))
     return d
